@@ -1,7 +1,7 @@
-\* C06 quick: 1 persistent + the transient substore, 3 blocks
+\* C06 quick: 1 persistent + the transient substore, 3 blocks x 1 write, 2 values
 CONSTANTS
   Stores = {"s1"}
-  NK = 2  NV = 2  NTK = 1  MaxVer = 3  MaxWrites = 2  MaxViews = 1
+  NK = 2  NV = 2  NTK = 1  MaxVer = 3  MaxWrites = 1  MaxViews = 1
   IterBounds <- FullOnly
   Features = {"close", "transient"}
   FirstBlockFixed = FALSE
